@@ -342,7 +342,15 @@ pub fn run_jrnl(case: &Case) -> RunOutput {
         let mut try_mutation = |out: &mut RunOutput, bytes: &[u8], class: &str, detail: String, suffix_loss: bool| {
             std::fs::write(&scratch, bytes).unwrap();
             tampered += 1;
-            match load_with_real_loader(&scratch) {
+            crate::allocp::reset();
+            let loaded = load_with_real_loader(&scratch);
+            let asked = crate::allocp::largest();
+            if asked > (64 << 20) {
+                // a failed allocation aborts the process: a loader that asks for what a damaged length field
+                // announces crashes wherever that much memory is not to be had
+                push(out, "tamper_never_crashes_loader", format!("huge_allocation:{class}"), format!("{detail}: loading the {}-byte file asked the allocator for {} MiB in one request", bytes.len(), asked >> 20));
+            }
+            match loaded {
                 Err(_) => push(out, "tamper_never_crashes_loader", format!("loader_panics:{class}"), format!("{detail}: the loader panicked")),
                 Ok(Err(_)) => rejected += 1,
                 Ok(Ok(list)) => {
@@ -365,14 +373,13 @@ pub fn run_jrnl(case: &Case) -> RunOutput {
         // the loader allocates a 512 kB read buffer per load, which bounds how many mutations fit a budget:
         // exhaustive over all positions for journals up to 4 KiB (thorough) / 768 B (quick), sampled above
         let thorough = std::env::var("VERIF_TIER").map(|t| t == "thorough").unwrap_or(false);
-        let exhaustive = journal.len() <= if thorough { 4096 } else { 768 };
+        let exhaustive = journal.len() <= if thorough { 4096 } else { 2048 };
         let cuts: Vec<usize> = if exhaustive { (0..journal.len()).collect() } else { (0..if thorough { 600 } else { 250 }).map(|_| rng.usize_below(journal.len())).collect() };
         for cut in cuts {
             let at_boundary = cut == 0 || ranges.iter().any(|(_, e)| *e == cut);
             try_mutation(&mut out, &journal[..cut], if at_boundary { "truncation_at_entry_boundary" } else { "truncation_inside_entry" }, format!("file cut to {cut} of {} bytes", journal.len()), at_boundary);
         }
-        // single-byte mutations; length fields are only changed in their low three bytes (the loader
-        // allocates what the field announces)
+        // single-byte mutations, length fields included in all four bytes
         let positions: Vec<usize> = if exhaustive { (0..journal.len()).collect() } else { (0..if thorough { 1500 } else { 400 }).map(|_| rng.usize_below(journal.len())).collect() };
         for position in positions {
             let (start, end) = *ranges.iter().find(|(a, b)| position >= *a && position < *b).unwrap();
@@ -390,10 +397,7 @@ pub fn run_jrnl(case: &Case) -> RunOutput {
                 _ if position >= command_length_at - 4 && position < command_length_at => "command_code",
                 _ => "command_payload",
             };
-            let _ = end;
-            if is_length_msb {
-                continue;
-            }
+            let _ = (end, is_length_msb);
             let mut mutated = journal.clone();
             let flip = if exhaustive { 1u8 << (position % 8) } else { 1u8 << rng.below(8) };
             mutated[position] ^= flip;
